@@ -493,7 +493,7 @@ fn apply_dev(spec: &mut FileSpec, dev: (usize, u8, usize, usize)) {
 const PATH_TOKENS: [&str; 12] = ["B", "B3", "L", "P", "C", "100:200", "150:200", "200:200", "150:250", "150:150", "x", ""];
 const LEN_CLASSES: [&str; 5] = ["", ",0", ",37.5", ",120", ",900.25"];
 
-const TIMING_MENU: [(i64, &str); 12] = [
+const TIMING_MENU: [(i64, &str); 14] = [
     (0, "500,4,1,0,100,1,0"),
     (0, "-50,4,2,1,60,0,1"),
     (0, "333.33,3,2,1,60,1,9"),
@@ -506,6 +506,9 @@ const TIMING_MENU: [(i64, &str); 12] = [
     (2500, "-5,4,1,0,100,0,1"),
     (3000, "600,4,0,0,100,1,0"),
     (3000, "-77.7,4,1,1,70,0,0"),
+    // multipliers below the slider-velocity clamp (0.1) but inside the scroll-speed clamp (0.01) of taiko / mania
+    (2000, "-2000,4,1,0,100,0,0"),
+    (3500, "-20000,4,1,0,100,0,1"),
 ];
 
 const OBJECT_MENU: [(i64, &str, &str); 14] = [
